@@ -293,7 +293,7 @@ Section Block.
 
   Definition process_execution_payload (st : BeaconState) (body : value) : option BeaconState :=
     let payload := body_get body "execution_payload" in
-    assert ((if fork_ge f Capella then true else negb (is_merge_transition_complete st))
+    assert ((if fork_ge f Capella then false else negb (is_merge_transition_complete st))
             || bytes_eqb (vbytes (pl_get payload "parent_hash"))
                          (vbytes (vget HeaderT (latest_execution_payload_header st) "block_hash"))) ;;
     assert (bytes_eqb (vbytes (pl_get payload "prev_randao")) (get_randao_mix E st (get_current_epoch E st))) ;;
